@@ -696,7 +696,17 @@ def load_known():
         return {'findings': [], 'fixed': []}
 
 
+# Seed trials (tools/try_seed_wt.py) build a scratch worktree of the engine (VERIF_REPO) and must not overwrite the
+# evidence and replay files of the real tree: they set VERIF_OUT to a scratch directory.
+OUTBASE = os.environ.get('VERIF_OUT') or VERIF
+
+
 def write_evidence(pid, tier, seed, level, coverage, wall, violations, assumptions=()):
+    if OUTBASE != VERIF:
+        os.makedirs(os.path.join(OUTBASE, 'evidence'), exist_ok=True)
+        with open(os.path.join(OUTBASE, 'evidence', pid + '.json'), 'w') as f:
+            json.dump({'property_id': pid, 'tier': tier, 'seed': int(seed), 'coverage': coverage, 'violations': int(violations)}, f)
+        return None
     os.makedirs(os.path.join(VERIF, 'evidence'), exist_ok=True)
     ev = {'property_id': pid, 'tier': tier, 'seed': int(seed), 'level': level, 'coverage': coverage,
           'assumptions': list(assumptions), 'wall_s': round(wall, 2), 'violations': int(violations)}
